@@ -98,7 +98,7 @@ def run(ctx):
         "samples": scen[:3] + [x for x in lines if x["op"] == "read"][:2],
         "exhaustive": False,
         "checker_cmd": "tlc MC_RecordIO.tla; tlc Trace_Stream.tla",
-    }, ["zero-length writes are exercised on the gRPC variant only (the "
-        "property's range)",
+    }, ["zero-length writes are exercised on all three variants (a zero-length "
+        "write must not end or disturb the peer's stream)",
         "the model checks small symbolic constants (GRPCBUF=4, MAXREC=6); the "
         "trace validation uses the real ones"])
